@@ -119,8 +119,8 @@ package snapshot
 //@   params s, w
 //@   results n, err
 //@   requires s.Stream != nil && w != nil
-//@   ensures [C18.chunk.relay] err == nil ==> w.nmsg - old(w.nmsg) == s.Stream.nrecv - old(s.Stream.nrecv) && forall k Int :: 0 <= k && k < s.Stream.nrecv - old(s.Stream.nrecv) ==> w.msg[old(w.nmsg) + k] == s.Stream.rdata[old(s.Stream.nrecv) + k]
+//@   ensures [C18.chunk.relay] err == nil ==> w.nmsg - old(w.nmsg) == s.Stream.nrecv - old(s.Stream.nrecv) && forall j Int :: old(w.nmsg) <= j && j < w.nmsg ==> w.msg[j] == s.Stream.rdata[j - old(w.nmsg) + old(s.Stream.nrecv)]
 //@   modifies s.Stream.nrecv, w.sdata, w.slen, w.nmsg, w.msg, allelems(uint8)
 //@   loop 0 invariant chunk != nil && fresh(chunk) && w.nmsg - old(w.nmsg) == s.Stream.nrecv - old(s.Stream.nrecv) && w.nmsg >= old(w.nmsg)
-//@   loop 0 invariant forall k Int :: 0 <= k && k < s.Stream.nrecv - old(s.Stream.nrecv) ==> w.msg[old(w.nmsg) + k] == s.Stream.rdata[old(s.Stream.nrecv) + k]
+//@   loop 0 invariant forall j Int :: old(w.nmsg) <= j && j < w.nmsg ==> w.msg[j] == s.Stream.rdata[j - old(w.nmsg) + old(s.Stream.nrecv)]
 //@   loop 0 invariant forall k Int :: s.Stream.rdata[k] == old(s.Stream.rdata[k])
